@@ -113,6 +113,28 @@ class PyDriver:
             return 'ok %d %d %d %d %d' % (a.k, int(i), int(j), a.flips[0], a.flips[1])
         if op == 'ij2s':
             return 'ok %d' % self.hb.ij_to_s((bits2f(t[1]), bits2f(t[2])), int(t[3]), t[4])
+        if op == 'l2c':
+            return 'ok %d' % self.a5.lonlat_to_cell((bits2f(t[1]), bits2f(t[2])), int(t[3]))
+        if op == 'c2l':
+            lo, la = self.a5.cell_to_lonlat(int(t[1]))
+            return 'ok %d %d' % (fbits(lo), fbits(la))
+        if op == 'c2b':
+            opts = {'closed_ring': t[2] == '1'}
+            if t[3] != '-':
+                opts['segments'] = int(t[3])
+            ring = self.a5.cell_to_boundary(int(t[1]), opts)
+            return 'ok %d' % len(ring) + ''.join(' %d %d' % (fbits(a), fbits(b)) for a, b in ring)
+        if op == 'pent':
+            from a5.core.tiling import get_pentagon_vertices
+            a = self.hb.s_to_anchor(int(t[3]), int(t[1]), t[4])
+            shp = get_pentagon_vertices(int(t[1]), int(t[2]), a)
+            vs = list(shp.get_vertices()) + [shp.get_center()]
+            return 'ok %d' % len(vs) + ''.join(' %d %d' % (fbits(x), fbits(y)) for x, y in vs)
+        if op in ('dfwd', 'dinv'):
+            from a5.core.cell import _dodecahedron
+            fn = _dodecahedron.forward if op == 'dfwd' else _dodecahedron.inverse
+            x, y = fn((bits2f(t[1]), bits2f(t[2])), int(t[3]))
+            return 'ok %d %d' % (fbits(x), fbits(y))
         if op == 'auth':
             from a5.projections.authalic import AuthalicProjection
             A = AuthalicProjection()
